@@ -192,12 +192,14 @@ class Radar:
         self._scan_tail = buf[-(len(HB_PAT) - 1):]
 
     # -- lifecycle --------------------------------------------------------------------------
-    def start(self):
+    def start(self, listen=True):
         self.tmp = tempfile.mkdtemp(prefix='e4r_', dir=SCRATCH)
         self.lsock = socket.socket(socket.AF_INET, socket.SOCK_STREAM)
         self.lsock.setsockopt(socket.SOL_SOCKET, socket.SO_REUSEADDR, 1)
         self.lsock.bind(('127.0.0.1', 0))
-        self.lsock.listen(8)
+        if listen:
+            self.lsock.listen(8)
+        # else: bound but not listening - connects are refused while the port stays reserved for this subject
         self.port = self.lsock.getsockname()[1]
         self.master, self.slave = pty.openpty()
         fcntl.ioctl(self.slave, termios.TIOCSWINSZ, struct.pack('HHHH', self.rows, self.cols, 0, 0))
@@ -422,6 +424,15 @@ class Radar:
             if time.monotonic() > end:
                 return 'timeout'
 
+    def stop_listening(self):
+        """From now on connects to the port are refused (the port stays reserved by a bound, non-listening socket)."""
+        port = self.port
+        self.lsock.close()
+        r = socket.socket(socket.AF_INET, socket.SOCK_STREAM)
+        r.setsockopt(socket.SOL_SOCKET, socket.SO_REUSEADDR, 1)
+        r.bind(('127.0.0.1', port))
+        self.lsock = r
+
     def close_conn(self):
         if self.conn is not None:
             try:
@@ -539,7 +550,7 @@ def run_radar(script):
            'exit_code': None, 'killed': False, 'notes': []}
     t0 = time.monotonic()
     try:
-        rd.start()
+        rd.start(listen=not script.get('no_listen', False))
         steps = script['steps']
         # establish: first draw ("Waiting for connection"), accept, first main-loop draw
         if script.get('connect', True):
@@ -630,6 +641,37 @@ def run_radar(script):
                     obs['frozen_at'] = i
                     break
                 if a == 'exited':
+                    obs['died_at'] = i
+                    break
+            elif op == 'keys_nowait':
+                rd.keys(bytes.fromhex(st['hex']), wait_read=True)
+            elif op == 'settle_waiting':
+                # after the connection is gone the main loop draws nothing more except the connection screen once;
+                # wait until output has been quiet for 0.3 s (no verdict depends on this wait: it only orders the
+                # key press after the disconnect was noticed; pressing earlier exercises the ordinary quit path)
+                quiet_since = time.monotonic()
+                seen = len(rd.raw)
+                end = time.monotonic() + T_SYNC
+                while time.monotonic() - quiet_since < 0.3 and not rd.exited():
+                    rd.pump(0.05)
+                    if len(rd.raw) != seen:
+                        seen = len(rd.raw)
+                        quiet_since = time.monotonic()
+                    if time.monotonic() > end:
+                        break
+                if rd.exited():
+                    obs['died_at'] = i
+                    break
+            elif op == 'stop_listening':
+                rd.stop_listening()
+            elif op == 'wait_draws':
+                # wait until the subject has drawn at least n times in total (the connection screen draws once)
+                end = time.monotonic() + T_SYNC
+                while len(rd.hb_off) < st['n'] and not rd.exited():
+                    if time.monotonic() > end:
+                        raise Machinery('subject did not draw %d times within %.0f s' % (st['n'], T_SYNC))
+                    rd.pump(0.05)
+                if rd.exited():
                     obs['died_at'] = i
                     break
             elif op == 'snap':
